@@ -403,20 +403,29 @@ fn main() {
     ));
     let total_planted = planted.len();
     let take = if thorough { total_planted } else { 900 };
-    // deterministic selection: every k-th, offset by the seed
+    // quick: the small special groups (trap action, syntax errors, own traps,
+    // hand-written) always, plus a random sample of the big matrix
     let mut idx: Vec<usize> = (0..total_planted).collect();
     if take < total_planted {
+        let always = |name: &str| {
+            name.contains("inside the EXIT trap action")
+                || name.contains("syntax error")
+                || name.contains("own EXIT trap")
+                || name.contains("${x?} of an empty")
+        };
+        let (mut must, mut rest): (Vec<usize>, Vec<usize>) = idx.iter().partition(|i| always(&planted[**i].0));
         // Fisher-Yates with the run's PRNG
         let mut r = rng.fork(7);
-        for i in (1..idx.len()).rev() {
+        for i in (1..rest.len()).rev() {
             let j = r.below(i + 1);
-            idx.swap(i, j);
+            rest.swap(i, j);
         }
-        idx.truncate(take);
-        if !idx.contains(&(total_planted - 1)) {
-            idx.push(total_planted - 1);
-        }
-        idx.sort();
+        rest.truncate(take.saturating_sub(must.len().min(take / 2)));
+        // of the "own EXIT trap" matrix keep a third
+        must.retain(|i| !planted[*i].0.contains("own EXIT trap") || i % 3 == 0);
+        must.extend(rest);
+        must.sort();
+        idx = must;
     }
     for i in idx {
         let (name, p, trap) = &planted[i];
@@ -456,7 +465,20 @@ fn main() {
         let trap = strict_class && r.chance(2, 3);
         let mut q: Prog = vec![];
         if trap {
-            q.push(trap_line());
+            if r.chance(1, 2) {
+                q.push(trap_line());
+            } else {
+                // a random action after the trap's own probe
+                let mut g = Gen { rng: &mut r, nodes: 6, next_key: 8000, next_loop_var: 40 };
+                let cx = Ctx { depth: 0, infun: false, rank: 4, allow_exit: true, nest: 2, wild: false, errors: true };
+                let mut action = vec![simple(probe(TRAP_KEY, g.rng.below(3) as u64))];
+                action.extend(g.list(&cx, 1, 2));
+                let mut ap: Prog = vec![Line::Cmd(action)];
+                scrub_error_sources(&mut ap);
+                scrub_prog(&mut ap);
+                let Line::Cmd(action) = ap.pop().unwrap() else { unreachable!() };
+                q.push(Line::Cmd(l1(Cmd::TrapExit(action))));
+            }
         }
         if r.chance(1, 2) {
             q.push(Line::Cmd(l1(call(Name::Set, &[1]))));
